@@ -5,7 +5,7 @@ coq/Proofs/StatusProofs.v; property coq/Props/C08.v; glue coq/Corr/C08Corr.v; dr
 c08race from a -race build in the thorough tier) compiled against the bindings the REAL generator emits for the resource
 family of checks/family.py (checks/httpdrv.py)."""
 import json, os, re
-import httpdrv
+import httpdrv, roothttp
 from generic import run_check
 from lib import *
 
@@ -54,7 +54,7 @@ def main(tier, seed, replay):
         tables=["TablesStatus"],
         model_targets=["Http/Status.vo", "Corr/C08Corr.vo"],
         prop_module="Props.C08",
-        driver="httpdrv", build=build, post=post,
+        driver="httpdrv", build=build, post=roothttp.post("c08", then=post),
         corr_name="corr:reply (model call = serve + client vs the generated client over the generated server with a scripted mock resource: "
                   "invoked or not, wire status, error header, id header, body kind and error-response fields, the client's result / error "
                   "fields, the resource's error object afterwards)",
